@@ -19,6 +19,7 @@ import Driver.C12
 import Driver.C18
 import Driver.C15
 import Driver.C20
+import Driver.C17
 open Ws.Driver
 
 def dispatch (op : String) (args : List String) (obs : String) : String × String :=
@@ -58,6 +59,7 @@ def dispatch (op : String) (args : List String) (obs : String) : String × Strin
   | "rst" => c18rst args obs
   | "fz" => c15fz args obs
   | "dialc" => c20dialc args obs
+  | "ali" => c17ali args obs
   | "neg" => c14neg args obs
   | "popt" => c14popt args obs
   | "msb" => c13msb args obs
